@@ -65,6 +65,8 @@ pub fn exec(db: &dyn IndexDatabase, range: FileRange) -> Option<Vec<InlayHint>> 
             _ => {}
         }
     }
+    // a symbol that overlaps the requested range can carry hints outside of it (e.g. arguments on later lines)
+    hints.retain(|hint| range.range.contains_inclusive(hint.position));
     Some(hints)
 }
 
